@@ -53,14 +53,15 @@ class TypeChecker:
     def check_type(self, typ, first=True, byname=False):
         """Check a type.
 
-        Determine struct offsets and check for recursiveness by using
-        mark and sweep algorithm.
+        Determine struct offsets and check for recursiveness: got_types
+        contains the structs that are being checked, and a struct that
+        contains one of those contains itself.
 
         The calling function could call this function with first set
         to clear the marks.
         """
 
-        # Reset the mark and sweep:
+        # Reset the marks:
         if first:
             self.got_types = set()
 
@@ -86,6 +87,8 @@ class TypeChecker:
                 self.check_type(struct_member.typ, first=False)
                 struct_member.offset = offset
                 offset = offset + self.context.size_of(struct_member.typ)
+            # This struct is complete, it may be used again:
+            self.got_types.remove(typ)
         elif isinstance(typ, ast.ArrayType):
             self.check_type(typ.element_type, first=False)
         elif isinstance(typ, ast.DefinedType):
